@@ -57,7 +57,7 @@ def tEnabled (s : St) (i : Nat) : Bool :=
   | .sdLock _ => s.c.locker.isNone
   | .sdIn _ => !(s.gp && holderIs s.c (tidOf i) .postE)
   | .rWait => !s.c.isRunning
-  | .rSpin => s.c.sched != .processing
+  | .rSpin => s.c.sched == .idle
   | .rPreE => !s.gs
   | _ => true
 
